@@ -252,15 +252,7 @@ def main(argv=None):
                                  "bound": "the fixed catalogue of inputs written in the probe (not a proof; covers clauses listed as not decided)",
                                  "cmd": w.get("cmd"), "found_failing_input": bool(w.get("found")), "failures": w.get("failures", [])[:8], "error": w.get("error")})
             if w.get("found"):
-                # failing inputs that belong to a listed known finding are not reported again
-                try:
-                    kf = json.load(open(os.path.join(VERIF, "known_findings.json"))).get("findings", [])
-                except Exception:
-                    kf = []
-                pre = [f.get("witness_failure_prefix") for f in kf if f.get("property") == prop and f.get("witness_failure_prefix")]
-                rest = [x for x in w.get("failures", []) if not any(str(x).startswith(p_) for p_ in pre)]
-                if rest or not w.get("failures"):
-                    bounded_hit = dict(w, failures=rest or w.get("failures", []))
+                bounded_hit = filter_known_failures(prop, w)
     wall = time.time() - t0
     samples = []
     for f in fns[:6]:
@@ -369,6 +361,12 @@ def default_witness(prop):
                 out["raw"] = last[-1][:2000]
         else:
             out["stderr"] = p.stderr[-1500:]
+            # the probe itself panicked on the crate's behaviour (index out of range, unwrap on an Err, overflow, ...): on the
+            # unchanged tree no probe panics, so this is a failing input, reported with the panic message
+            if p.returncode != 0 and "panicked at" in p.stderr and "could not compile" not in p.stderr:
+                msg = [l for l in p.stderr.splitlines() if "panicked at" in l or l.strip().startswith(("called `", "attempt to", "index out", "assertion"))]
+                out["found"] = True
+                out["failures"] = ["the probe panicked: " + " | ".join(m.strip() for m in msg[:3])[:400]]
         return out
     return run
 
@@ -383,6 +381,20 @@ def summarize_rewrites(rw):
     return out
 
 
+def filter_known_failures(prop, w):
+    """failing inputs of the witness probe that belong to a listed known finding are not reported again; None if nothing is left"""
+    try:
+        kf = json.load(open(os.path.join(VERIF, "known_findings.json"))).get("findings", [])
+    except Exception:
+        kf = []
+    pre = [f.get("witness_failure_prefix") for f in kf if f.get("property") == prop and f.get("witness_failure_prefix")]
+    fails = w.get("failures", [])
+    rest = [x for x in fails if not any(str(x).startswith(p_) for p_ in pre)]
+    if fails and not rest:
+        return None
+    return dict(w, failures=rest or fails)
+
+
 def witness_on_undecided(prop, mod, msgs, ctx):
     """The contracts could not be attached or discharged (anchor lost, unsupported construct, ...): that alone is
     never an alarm.  If the property's witness probe finds a concrete failing input on the real crate, that input is
@@ -395,6 +407,9 @@ def witness_on_undecided(prop, mod, msgs, ctx):
     except Exception as e:
         return None
     if not (w and w.get("found")):
+        return None
+    w = filter_known_failures(prop, w)
+    if w is None:
         return None
     os.makedirs(os.path.join(VERIF, "replay"), exist_ok=True)
     path = os.path.join(VERIF, "replay", f"{prop}.json")
